@@ -121,13 +121,10 @@ func ruleLogShapes(c *eng.Ctx) {
 		c.Check(len(beyond) > 0 && exact, "index read bound", p.Pos(fn.Pos()), "EOF exactly when position < offset + entryWidth", "index.ReadAt's end-of-index test is not `position < offset+entryWidth`: the last entry becomes unreadable or an empty slot is read")
 	}
 	if fn := c.Fn(cl + "(*segment).findLastEntryIndex"); fn != nil {
-		ok := false
-		for _, r := range eng.Returns(fn) {
-			rv := eng.RetVals(r)
-			if len(rv) == 2 && eng.NilConst(rv[1]) && eng.Bin(token.SUB, call("sort.Search"), eng.IntConst(1))(rv[0]) {
-				ok = true
-			}
-		}
+		nRet, ok := allReturns(fn, errNil(1), func(rv []ssa.Value) bool {
+			return eng.Bin(token.SUB, call("sort.Search"), eng.IntConst(1))(rv[0])
+		})
+		ok = ok && nRet > 0
 		pred := c.FnQuiet(cl + "(*segment).findLastEntryIndex$1")
 		okPred := false
 		if pred != nil {
@@ -199,13 +196,18 @@ func ruleLogShapes(c *eng.Ctx) {
 		c.Check(len(eng.CallsIn(fn, cl+"segment.notifyWaiters")) == 1, "write wakes readers waiting for data", p.Pos(fn.Pos()), "notifyWaiters() after the write", "segment.write does not wake uncommitted readers / replication waiters")
 	}
 	if fn := c.Fn(cl + "(*segment).NextOffset"); fn != nil {
-		ok := false
+		nRet, ok := allReturns(fn, nil, func(rv []ssa.Value) bool {
+			return eng.Bin(token.ADD, eng.LoadNamed("lastOffset", nil), eng.IntConst(1))(rv[0])
+		}, func(rv []ssa.Value) bool { return eng.LoadNamed("BaseOffset", nil)(rv[0]) })
+		ok = ok && nRet >= 2
+		empty := eng.CmpEdges(fn, eng.LoadNamed("lastOffset", nil), eng.IntConst(-1), eng.EQ)
 		for _, r := range eng.Returns(fn) {
-			if eng.Bin(token.ADD, eng.LoadNamed("lastOffset", nil), eng.IntConst(1))(eng.RetVals(r)[0]) {
-				ok = true
+			if eng.LoadNamed("BaseOffset", nil)(eng.RetVals(r)[0]) {
+				if g, _ := eng.GuardedBy(fn, r, empty); !g {
+					ok = false
+				}
 			}
 		}
-		empty := eng.CmpEdges(fn, eng.LoadNamed("lastOffset", nil), eng.IntConst(-1), eng.EQ)
 		c.Check(ok && len(empty) > 0, "next offset = last offset + 1 (base offset when empty)", p.Pos(fn.Pos()), "lastOffset == -1 ? BaseOffset : lastOffset + 1", "segment.NextOffset is not lastOffset+1 / BaseOffset for an empty segment")
 	}
 	// Truncate bookkeeping
@@ -323,4 +325,37 @@ func boolConst(v ssa.Value, want bool) bool {
 // exactRel: fn contains a test of a against b whose true edge carries exactly rel (not a stronger or weaker relation).
 func exactRel(fn *ssa.Function, a, b eng.VM, rel eng.Rel) bool {
 	return eng.ExactCmp(fn, a, b, rel)
+}
+
+// allReturns: among the returns of fn selected by pick (nil = all), every one satisfies at least one of the shapes.
+// Rules on returned values quantify over ALL returns: an extra early return with another value must not hide behind a
+// later one that has the expected shape.
+func allReturns(fn *ssa.Function, pick func(rv []ssa.Value) bool, shapes ...func(rv []ssa.Value) bool) (int, bool) {
+	n, ok := 0, true
+	for _, r := range eng.Returns(fn) {
+		rv := eng.RetVals(r)
+		if pick != nil && !pick(rv) {
+			continue
+		}
+		n++
+		matched := false
+		for _, sh := range shapes {
+			if sh(rv) {
+				matched = true
+			}
+		}
+		if !matched {
+			ok = false
+		}
+	}
+	return n, ok
+}
+
+func errNil(i int) func(rv []ssa.Value) bool {
+	return func(rv []ssa.Value) bool { return len(rv) > i && eng.NilConst(rv[i]) }
+}
+
+func constBool(v ssa.Value, want bool) bool {
+	k, ok := v.(*ssa.Const)
+	return ok && k.Value != nil && k.Value.String() == map[bool]string{true: "true", false: "false"}[want]
 }
